@@ -18,5 +18,5 @@ PLAN = dict(
         dict(name="limits", run="^(TestLimits|TestCorpus)$", timeout=(300, 3600)),
         dict(name="rt", run="^TestPropRoundTrip$", checks=(1200, 150000), shards=(1, 16), timeout=(300, 3600)),
     ],
-    require=[("roundtrip", "at-limit"), ("roundtrip", "over-limit"), ("roundtrip", "multi-valued"), ("roundtrip", "1b1"), ("roundtrip", "1b3")],
+    require=[("roundtrip", "at-limit"), ("roundtrip", "over-limit"), ("roundtrip", "multi-valued"), ("roundtrip", "1b1"), ("roundtrip", "1b3"), ("roundtrip", "plain-reader")],
 )
